@@ -1,5 +1,6 @@
 CONSTANTS
   MaxDepth = 6
+  LongNs <- LongQuick
   L1 <- L1All
   L2 <- L2Quick
   L3 <- L3Quick
